@@ -169,11 +169,42 @@ pub fn bspldnev_single_dual2(
 
 /// A piecewise polynomial spline of given order and knot sequence.
 #[derive(Clone, Debug, Deserialize, Serialize)]
+#[serde(try_from = "PPSplineDataModel<T>")]
 pub struct PPSpline<T> {
     k: usize,
     t: Vec<f64>,
     c: Option<Array1<T>>,
     n: usize,
+}
+
+/// Deserialization data model for [PPSpline]: validated before a `PPSpline` is created.
+#[derive(Deserialize)]
+struct PPSplineDataModel<T> {
+    k: usize,
+    t: Vec<f64>,
+    c: Option<Array1<T>>,
+    n: usize,
+}
+
+impl<T> std::convert::TryFrom<PPSplineDataModel<T>> for PPSpline<T> {
+    type Error = String;
+
+    fn try_from(model: PPSplineDataModel<T>) -> Result<Self, Self::Error> {
+        if model.t.len() < model.k || model.n != model.t.len() - model.k {
+            return Err("`n` must equal the number of knots `t` less the order `k`.".to_string());
+        }
+        if let Some(c) = &model.c {
+            if c.len() != model.n {
+                return Err("`c` must contain `n` coefficients.".to_string());
+            }
+        }
+        Ok(PPSpline {
+            k: model.k,
+            t: model.t,
+            c: model.c,
+            n: model.n,
+        })
+    }
 }
 
 impl<T> PPSpline<T> {
